@@ -39,8 +39,15 @@ void BiPropNode::biPropDependsOnOneNode(BiPropNode& node) {
     set_insert(*biPropSet_, &node);
     node.biPropSet_ = biPropSet_;
   } else if (node.biPropSet_ != nullptr && biPropSet_ != nullptr) {
-    set_union(*biPropSet_, *node.biPropSet_);
-    node.biPropSet_ = biPropSet_;
+    if (node.biPropSet_ != biPropSet_) {
+      // Merge the two sets: every member of node's old set has to share the merged set, not only
+      // node itself, or the other members keep pointing at a stale, smaller set.
+      auto otherSet = node.biPropSet_;
+      set_union(*biPropSet_, *otherSet);
+      for (const BiPropNode* member : *otherSet) {
+        const_cast<BiPropNode*>(member)->biPropSet_ = biPropSet_;
+      }
+    }
   } else if (biPropSet_ == nullptr) {
     biPropSet_ = node.biPropSet_;
     set_insert(*biPropSet_, this);
